@@ -73,7 +73,43 @@ type CGScenario struct {
 
 // ---- generator ----
 
+// genCollisionModel is a template whose method full names collide when two of them are
+// concatenated without a separator ("p.A.x"+"q.B.y" == "p.A.xq"+".B.y"): keys built that way
+// must not merge different edges.
+func genCollisionModel(t *tape.Tape) []MClass {
+	names := [][3]string{{"p", "A", "x"}, {"p", "A", "xq"}, {"q", "B", "y"}, {"", "B", "y"}}
+	model := []MClass{
+		{NodeName: "A", Package: "p", Type: "Class", Functions: []MFunc{{Name: "x"}, {Name: "xq"}}},
+		{NodeName: "B", Package: "q", Type: "Class", Functions: []MFunc{{Name: "y"}}},
+		{NodeName: "B", Package: "", Type: "Class", Functions: []MFunc{{Name: "y"}}},
+	}
+	// the chain p.A.x -> q.B.y -> p.A.xq -> .B.y in a drawn rotation, plus a few drawn extra calls
+	chain := [][2]int{{0, 2}, {2, 1}, {1, 3}}
+	add := func(from, to int) {
+		f, c := names[from], names[to]
+		for ci := range model {
+			if model[ci].Package == f[0] && model[ci].NodeName == f[1] {
+				for fi := range model[ci].Functions {
+					if model[ci].Functions[fi].Name == f[2] {
+						model[ci].Functions[fi].FunctionCalls = append(model[ci].Functions[fi].FunctionCalls, MCall{c[0], c[1], c[2]})
+					}
+				}
+			}
+		}
+	}
+	for _, e := range chain {
+		add(e[0], e[1])
+	}
+	for k := 0; k < t.Int(0, 3); k++ {
+		add(t.Pick(4), t.Pick(4))
+	}
+	return model
+}
+
 func genModel(t *tape.Tape, thorough bool) []MClass {
+	if t.Bool(1, 16) {
+		return genCollisionModel(t)
+	}
 	pkgs := []string{"p", "q.r", "com.x"}
 	if t.Bool(1, 4) {
 		pkgs = []string{"p", "", "com.x"} // some classes live in the default package
@@ -90,6 +126,12 @@ func genModel(t *tape.Tape, thorough bool) []MClass {
 	usedCls := map[string]bool{}
 	for i := 0; i < nc; i++ {
 		c := MClass{NodeName: clsNames[i], Package: pkgs[t.Pick(len(pkgs))], Type: "Class"}
+		switch t.Pick(8) {
+		case 0:
+			c.Type = "Interface" // Java 8 interfaces have default methods with bodies and calls
+		case 1:
+			c.Type = ""
+		}
 		if i > 0 && t.Bool(1, 5) {
 			// the same simple class name again, in another package if possible
 			c.NodeName = clsNames[t.Pick(i)]
@@ -109,6 +151,15 @@ func genModel(t *tape.Tape, thorough bool) []MClass {
 			name := fmt.Sprintf("m%d", j)
 			if t.Bool(1, 12) {
 				name = fmt.Sprintf("m\"%d", j) // names containing quotes must be escaped in DOT
+			}
+			if t.Bool(1, 25) {
+				// names that are keywords elsewhere are ordinary method names in a model
+				name = []string{"new", "super", "this", "default", "init"}[t.Pick(5)]
+				for _, f := range c.Functions {
+					if f.Name == name {
+						name = fmt.Sprintf("m%d", j)
+					}
+				}
 			}
 			isCtor := false
 			if j == 0 && t.Bool(1, 6) {
